@@ -11,10 +11,11 @@ import (
 // newWeakHasher builds a hasher.Hasher that keeps the production CreateID logic
 // (hasher.NewHasherWithOptions, MinLength 4, 8-byte digests) but swaps the digest function:
 //
-//	"weak4": digest = 8 bytes all equal to (fnv32a(value) mod 4) → only 4 distinct digests, so IDs
-//	         collide after a handful of IRIs and the collision counter path is exercised, including
-//	         the varint fallback once collisions >= 4;
-//	"const": digest = 8 zero bytes → every IRI collides with every other.
+//	"weak4": k = fnv32a(value) mod 4, digest = bytes 8k, 8k+1, .., 8k+7 → only 4 distinct digests
+//	         (with pairwise distinct bytes), so IDs collide after a handful of IRIs and both collision
+//	         branches of CreateID are exercised: the "append digest[collisions]" branch for
+//	         collisions < 4 and the uvarint fallback from the 5th IRI of a class on;
+//	"const": digest = bytes 0,1,..,7 for every value → every IRI collides with every other.
 func newWeakHasher(kind string) (hasher.Hasher, error) {
 	var mk func() hash.Hash
 	switch kind {
@@ -49,8 +50,8 @@ func (w *weakHash) Write(p []byte) (int, error) { w.buf = append(w.buf, p...); r
 func (w *weakHash) Sum(b []byte) []byte {
 	f := fnv.New32a()
 	_, _ = f.Write(w.buf)
-	v := byte(f.Sum32() % w.mod)
-	return append(b, v, v, v, v, v, v, v, v)
+	v := byte(f.Sum32()%w.mod) * 8
+	return append(b, v, v+1, v+2, v+3, v+4, v+5, v+6, v+7)
 }
 func (w *weakHash) Reset()         { w.buf = nil }
 func (w *weakHash) Size() int      { return 8 }
